@@ -2332,3 +2332,50 @@ package sarama
 //@   ensures[idempotence_preconditions] err == nil && c.Producer.Idempotent ==> verAtLeast(c.Version, V0_11_0_0) && c.Producer.Retry.Max != 0 && c.Producer.RequiredAcks == WaitForAll && c.Net.MaxOpenRequests <= 1
 //@   ensures[zstd_needs_2_1] err == nil && c.Producer.Compression == CompressionZSTD ==> verAtLeast(c.Version, V2_1_0_0)
 //@   nosafety
+
+// ---------------------------------------------------------------------------------------------
+// admin.go coordinator-bound operations (C19): the request of a group goes to that group's coordinator (coordOf is the
+// coordinator the client reports during the call); DescribeConsumerGroups splits the groups per coordinator and
+// sends each broker exactly the groups it coordinates; DeleteConsumerGroup reports the broker's verdict for the
+// group (and an incomplete answer as an error); ListConsumerGroupOffsets picks the request version by Kafka version.
+//@ ghost func coordOf(string) *Broker
+//@ func (b *Broker) DescribeGroups(request) trusted
+//@   returns rsp, err
+//@   ensures err == nil ==> rsp != nil
+//@   modifies nothing
+//@ func (b *Broker) DeleteGroups(request) trusted
+//@   returns rsp, err
+//@   ensures err == nil ==> rsp != nil
+//@   modifies nothing
+//@ func (b *Broker) FetchOffset(request) trusted
+//@   returns rsp, err
+//@   modifies nothing
+//@ func (ca *clusterAdmin) DescribeConsumerGroups(groups) props C19
+//@   returns result, err
+//@   requires ca.client != nil
+//@   loopname coordinators: range groups
+//@   loopname perbroker: range groupsPerBroker
+//@   callsite Client.Coordinator: effect $result1 == nil ==> $result == coordOf($consumerGroup)
+//@   loop coordinators: invariant groupsPerBroker != nil
+//@   loop coordinators: invariant[grouped_by_coordinator] forall b *Broker, k int :: haskey(groupsPerBroker, b) && 0 <= k && k < len(groupsPerBroker[b]) ==> coordOf(groupsPerBroker[b][k]) == b
+//@   loop coordinators: invariant[every_group_listed] forall j :: 0 <= j && j < $i ==> haskey(groupsPerBroker, coordOf(groups[j])) && exists k :: 0 <= k && k < len(groupsPerBroker[coordOf(groups[j])]) && groupsPerBroker[coordOf(groups[j])][k] == groups[j]
+//@   loop perbroker: invariant[grouped_by_coordinator] forall b *Broker, k int :: haskey(groupsPerBroker, b) && 0 <= k && k < len(groupsPerBroker[b]) ==> coordOf(groupsPerBroker[b][k]) == b
+//@   callsite Broker.DescribeGroups: requires[sent_to_the_coordinator_of_every_group_named] $request != nil && forall k :: 0 <= k && k < len($request.Groups) ==> coordOf($request.Groups[k]) == $recv
+//@   callsite Broker.DescribeGroups: requires[all_groups_of_that_coordinator] haskey(groupsPerBroker, $recv) && len($request.Groups) == len(groupsPerBroker[$recv]) && forall k :: 0 <= k && k < len($request.Groups) ==> $request.Groups[k] == groupsPerBroker[$recv][k]
+//@   nosafety
+
+//@ func (ca *clusterAdmin) DeleteConsumerGroup(group) props C19
+//@   returns err
+//@   requires ca.client != nil
+//@   callsite Client.Coordinator: effect $result1 == nil ==> $result == coordOf($consumerGroup)
+//@   callsite Broker.DeleteGroups: requires[sent_to_the_groups_coordinator] $recv == coordOf(group) && $request != nil && len($request.Groups) == 1 && $request.Groups[0] == group
+//@   ensures[verdict_reported] err == nil ==> resp != nil && haskey(resp.GroupErrorCodes, group) && resp.GroupErrorCodes[group] == ErrNoError
+//@   nosafety
+
+//@ func (ca *clusterAdmin) ListConsumerGroupOffsets(group, topicPartitions) props C19
+//@   returns rsp, err
+//@   requires ca.client != nil && ca.conf != nil
+//@   callsite Client.Coordinator: effect $result1 == nil ==> $result == coordOf($consumerGroup)
+//@   callsite Broker.FetchOffset: requires[sent_to_the_groups_coordinator] $recv == coordOf(group) && $request != nil && $request.ConsumerGroup == group && $request.partitions == topicPartitions
+//@   callsite Broker.FetchOffset: requires[version_by_kafka_version] $request.Version == ite(verAtLeast(ca.conf.Version, V0_10_2_0), 2, ite(verAtLeast(ca.conf.Version, V0_8_2_2), 1, 0))
+//@   nosafety
